@@ -296,6 +296,9 @@ pub fn install_panic_hook() {
         } else {
             "<non-string panic>".into()
         };
+        if std::env::var_os("SV_BACKTRACE").is_some() {
+            eprintln!("panic: {} at {}\n{}", msg, loc, std::backtrace::Backtrace::force_capture());
+        }
         if let Ok(mut g) = LAST_PANIC.lock() {
             *g = Some((loc, msg));
         }
